@@ -19,6 +19,7 @@ func init() {
 	rt.Register("C11_rowreduce_concrete", VerifHarness_C11_rowreduce_concrete)
 	rt.Register("C11_times", VerifHarness_C11_times)
 	rt.Register("C11_fill", VerifHarness_C11_fill)
+	rt.Register("C11_wide_swap", VerifHarness_C11_wide_swap)
 }
 
 func bitElems(name string, n int) []T {
@@ -182,7 +183,7 @@ func VerifHarness_C11_rowreduce_concrete() {
 // fn(i, j) and NewIdentityMatrix is the identity, also for matrices beyond the
 // sizes the other harnesses use (up to 130 x 128 = 16640 elements, 200 x 100).
 func VerifHarness_C11_fill() {
-	dims := [][2]int{{1, 1}, {3, 5}, {33, 31}, {129, 128}, {130, 127}, {200, 100}}[rt.Choice("dims", 6)]
+	dims := [][2]int{{1, 1}, {3, 5}, {33, 31}, {129, 128}, {130, 127}, {200, 100}, {257, 3}, {263, 1}, {300, 2}}[rt.Choice("dims", 9)]
 	rows, cols := dims[0], dims[1]
 	base := T(rt.U16("base"))
 	fn := func(i, j int) T { return base ^ T(i*cols+j) }
@@ -211,6 +212,38 @@ func VerifHarness_C11_fill() {
 		}
 	}
 	rt.Assert(idOK, "NewIdentityMatrix(n) is the identity for every n")
+}
+
+// Row operations on rows wider than 256 elements: a 2x2 system that needs its
+// rows swapped, with a right-hand side of 300 columns (symbolic at the columns
+// around 256 and at both ends).
+func VerifHarness_C11_wide_swap() {
+	const cols = 300
+	m := NewMatrixFromSlice(2, 2, []T{0, 1, 1, 0})
+	els := make([]T, 2*cols)
+	for i := range els {
+		els[i] = T(i + 1)
+	}
+	for k, c := range []int{0, 1, 255, 256, 257, 299} {
+		els[c] = T(rt.U16("a" + string(rune('0'+k))))
+		els[cols+c] = T(rt.U16("b" + string(rune('0'+k))))
+	}
+	els0 := append([]T(nil), els...)
+	n := NewMatrixFromSlice(2, cols, els)
+	r, err := m.RowReduceForInverse(n)
+	rt.Assert(err == nil, "error only for a singular matrix")
+	if err != nil {
+		return
+	}
+	ok := true
+	for j := 0; j < cols; j++ {
+		// M is the row exchange, so M^-1 N is N with its rows exchanged
+		if r.At(0, j) != els0[cols+j] || r.At(1, j) != els0[j] {
+			ok = false
+		}
+	}
+	rt.Assert(ok, "M * RowReduce(M,N) == N (row exchange, 300 columns)")
+	unchanged(n, els0, "N unchanged")
 }
 
 // The matrix product is the row-by-column product (symbolic 2x2 by 2x2).
